@@ -235,7 +235,10 @@ class TemplateData(object):
         else:
             if descriptor.X == 33 and self.waiting_for_qa_info_meaning:
                 node = self.add_node(QualityInfoNode(*self.get_next_descriptor_and_index()))
-                self.index_to_node[self.bitmap_links[node.index]].add_attribute(node)
+                # Only the class 33 values that were linked to a bitmapped element are
+                # quality information; a later class 33 element is ordinary data.
+                if node.index in self.bitmap_links:
+                    self.index_to_node[self.bitmap_links[node.index]].add_attribute(node)
 
             else:
                 node = self.add_value_node()
